@@ -26,7 +26,7 @@ Section Unfold.
   Lemma simp_EImplies a b : simp G n (EImplies a b) = walk_implies (simp G n a) (simp G n b). Proof. destruct n; reflexivity. Qed.
   Lemma simp_EIff a b : simp G n (EIff a b) = walk_iff (simp G n a) (simp G n b). Proof. destruct n; reflexivity. Qed.
   Lemma simp_EExists vs a : simp G n (EExists vs a) = walk_exists G (resimp G n) vs (simp G n a). Proof. destruct n; reflexivity. Qed.
-  Lemma simp_EForall vs a : simp G n (EForall vs a) = walk_forall vs (simp G n a). Proof. destruct n; reflexivity. Qed.
+  Lemma simp_EForall vs a : simp G n (EForall vs a) = walk_forall G vs (simp G n a). Proof. destruct n; reflexivity. Qed.
   Lemma simp_EPlus l : simp G n (EPlus l) = walk_arith false (map (simp G n) l). Proof. destruct n; reflexivity. Qed.
   Lemma simp_EMinus a b : simp G n (EMinus a b) = walk_minus (simp G n a) (simp G n b). Proof. destruct n; reflexivity. Qed.
   Lemma simp_ETimes l : simp G n (ETimes l) = walk_arith true (map (simp G n) l). Proof. destruct n; reflexivity. Qed.
@@ -83,7 +83,7 @@ Section UnfoldOk.
     simp_ok G n (EExists vs a) =
     simp_ok G n a &&
     (let body := simp G n a in
-     let vs0 := prune vs body in
+     let vs0 := prune G vs body in
      match elim_step G vs0 body with
      | None => true
      | Some _ =>
